@@ -632,6 +632,16 @@ static void run_storm(uint64_t seed, uint64_t index) {
   bool steal = r.chance(1, 2);
   int balance_us = int(r.pick<int>({0, 0, 100}));
   uint32_t spawners = uint32_t(r.range(8, 48)), kids = uint32_t(r.range(8, 24)), rounds = uint32_t(r.range(4, 16));
+  // every sixth episode: more workers than one 128-element block of the enumerable thread-local holds (the steal
+  // sweep then walks several blocks), stealing on
+  if (index % 6 == 5) {
+    workers = int(r.range(130, 170));
+    steal = true;
+    spawners = uint32_t(r.range(64, 200));
+    kids = uint32_t(r.range(2, 6));
+    rounds = uint32_t(r.range(2, 5));
+    VF_COUNT("obs:storm_episodes_over_128_workers");
+  }
   uint32_t per_round = spawners * (kids + 1), total = per_round * rounds;
   std::string desc = vf::fmt("storm ep=%lu seed=%lu workers=%d steal=%d balance_us=%d spawners=%u kids=%u rounds=%u",
                              (unsigned long)index, (unsigned long)seed, workers, int(steal), balance_us, spawners, kids, rounds);
